@@ -9,9 +9,9 @@ use crate::{
     world::Committee,
 };
 
-const FAMILIES: [&str; 12] = [
+const FAMILIES: [&str; 13] = [
     "benign", "random-partition", "lossy-reorder", "equivocating-leader", "hidden-commit", "timeout-liar",
-    "vote-flood", "crash-random", "lagging-sync", "heal", "absurd", "poisoned-laggard"];
+    "vote-flood", "crash-random", "lagging-sync", "heal", "absurd", "poisoned-laggard", "twins"];
 
 fn policy(fam: &str, rng: &mut StdRng, steps: usize) -> (Policy, f64) {
     // returns (policy, byzantine fraction of f)
@@ -86,8 +86,19 @@ fn policy(fam: &str, rng: &mut StdRng, steps: usize) -> (Policy, f64) {
             p.p_drop = 0.02;
             byz = 1.0;
         }
+        "twins" => {
+            // every Byzantine key runs two real replicas in different halves of a two-way partition that is re-drawn every
+            // few dozen steps (Twins methodology); the harness-signed adversary stays active at a low rate
+            p.twins = true;
+            byz = 1.0;
+            p.p_byz = 0.02;
+            p.partition_period = rng.gen_range(20..150);
+            p.fifo = rng.gen_bool(0.3);
+            p.p_drop = 0.03;
+            p.p_time = 0.01;
+        }
         "heal" => {
-            let inner = ["random-partition", "lossy-reorder", "equivocating-leader", "timeout-liar", "crash-random", "hidden-commit", "poisoned-laggard", "poisoned-laggard"][rng.gen_range(0..8)];
+            let inner = ["random-partition", "lossy-reorder", "equivocating-leader", "timeout-liar", "crash-random", "hidden-commit", "poisoned-laggard", "poisoned-laggard", "twins"][rng.gen_range(0..9)];
             let (q, b) = policy(inner, rng, steps);
             p = q;
             byz = b;
@@ -209,8 +220,8 @@ fn merge(rep: &mut Report, prop: &str, res: &CaseResult, desc: &str, spec: &Case
 
 fn families_for(prop: &str) -> Vec<&'static str> {
     match prop {
-        "C01" | "C02" => vec!["benign", "random-partition", "lossy-reorder", "equivocating-leader", "hidden-commit", "timeout-liar", "crash-random", "lagging-sync", "hidden-commit", "equivocating-leader"],
-        "C05" => vec!["benign", "random-partition", "lossy-reorder", "equivocating-leader", "hidden-commit", "timeout-liar", "vote-flood", "crash-random", "lagging-sync"],
+        "C01" | "C02" => vec!["benign", "random-partition", "lossy-reorder", "equivocating-leader", "hidden-commit", "timeout-liar", "crash-random", "lagging-sync", "hidden-commit", "equivocating-leader", "twins"],
+        "C05" => vec!["benign", "random-partition", "lossy-reorder", "equivocating-leader", "hidden-commit", "timeout-liar", "vote-flood", "crash-random", "lagging-sync", "twins"],
         "C06" => vec!["heal"],
         "C16" => vec!["vote-flood", "vote-flood", "timeout-liar", "absurd"],
         "C10" => vec!["absurd", "vote-flood", "equivocating-leader"],
